@@ -3,12 +3,13 @@
 // Contracts for package pkg (public API), checked by /verif/govc (comment-only; compiled only with -tags verif).
 package pkg
 
-//@ prelude c04
+//@ prelude c04 c09
 
 //@ func CompileProfile(profileText string, debug bool, eventChan *chan e.Event) (*rego.PreparedEvalQuery, error)
 //@   requires [C11:fresh] eventChan != nil ==> (chanClosed == 0 && !evOpen && evNext == 0)
 //@   ensures [C11:closed-on-error] eventChan != nil ==> (result1 != nil ==> chanClosed == old(chanClosed) + 1)
 //@   ensures [C11:open-on-success] eventChan != nil ==> (result1 == nil ==> chanClosed == old(chanClosed) && !evOpen && evNext == 3)
+//@   ensures [C09:same-as-validate-compiles] result1 == compileErr(profileText) && (result1 == nil ==> result0 != nil && deref(result0) == compiledQuery(profileText))
 
 //@ func Validate(profileText string, jsonldText string, debug bool, eventChan *chan e.Event) (string, error)
 //@   requires [C11:fresh] eventChan != nil ==> (chanClosed == 0 && !evOpen && evNext == 0)
@@ -24,8 +25,10 @@ package pkg
 //@   requires [C11:fresh] eventChan != nil ==> (chanClosed == 0 && !evOpen && evNext == 0)
 //@   ensures [C11:closed-once] eventChan != nil ==> chanClosed == old(chanClosed) + 1
 //@   ensures [C04:no-verdict] !jsonTextValid(jsonldText) ==> (result1 != nil && result0 == "")
+//@   ensures [C09:equivalent-to-precompiled] compileErr(profileText) == nil ==> (result0 == libCompiledReport(compiledQuery(profileText), jsonldText, validationConfig, reportConfig) && result1 == libCompiledReportErr(compiledQuery(profileText), jsonldText, validationConfig, reportConfig))
 
 //@ func ValidateCompiledWithConfiguration(compiledRegoPtr *rego.PreparedEvalQuery, jsonldText string, debug bool, eventChan *chan e.Event, validationConfig c.ValidationConfiguration, reportConfig c.ReportConfiguration) (string, error)
 //@   requires [C11:compiled] eventChan != nil ==> (chanClosed == 0 && !evOpen && evNext == 3)
 //@   ensures [C11:closed-once] eventChan != nil ==> chanClosed == old(chanClosed) + 1
 //@   ensures [C04:no-verdict] !jsonTextValid(jsonldText) ==> (result1 != nil && result0 == "")
+//@   ensures [C09:delegates] compiledRegoPtr != nil ==> (result0 == libCompiledReport(deref(compiledRegoPtr), jsonldText, validationConfig, reportConfig) && result1 == libCompiledReportErr(deref(compiledRegoPtr), jsonldText, validationConfig, reportConfig))
